@@ -131,7 +131,7 @@ def construct_volume_t4(mcnp_parser, lattice_params, cell_cache_path,
                                                 ['aux plane for unions'])
 
     with Progress('converting cell', len(conv_keys),
-                  max(key for key, _ in conv_keys)) as progress:
+                  max((key for key, _ in conv_keys), default=0)) as progress:
         for i, (key, val) in enumerate(conv_keys):
             progress.update(i, key)
             try:
